@@ -276,6 +276,8 @@ def edit_cases(draw):
     if style != "grid":
         # something is left reaching a few nanoseconds past 0 (it is clipped, not dropped), or ends a few nanoseconds before 0
         cands += [-(t - 4e-9) for t in ts if t > 1e-6] + [-(t + 4e-9) for t in ts]
+        # a shift so small that what leaves the span leaves it by less than 1e-9 of its length: it still leaves it
+        cands += [4e-9, max(spec["maxT"], 1.0) * 3e-10] * 2 + ([-spec["minT"] * 3e-10] if spec["minT"] > 0 else [])
     off = draw(st.one_of(st.sampled_from(cands), gen.time_of(style), gen.time_of(style).map(lambda t: -t)))
     return {"tier": spec, "offset": off, "mode": draw(st.sampled_from(["silence", "warning", "error"]))}
 
